@@ -178,6 +178,22 @@ def evaluate(ctx, cases):
                 ctx.violation("projection raised", inp, o["err"], "projections")
             continue
         got = [core.canon(x) for x in o["ok"]]
+        # the other ways of asking for the same projection
+        if ctx.rng.random() < (0.25 if ctx.tier == "quick" else 0.6):
+            ctx.count("select-forms")
+            style_v = getattr(Projection, c["style"])
+            forms = {
+                "compiled relative queries": lambda: list(jsonpath.query(c["match"], doc).select(*[jsonpath.compile(x) for x in c["sel"]], projection=style_v)),
+                "compiled.query(doc).select": lambda: list(jsonpath.compile(c["match"]).query(doc).select(*c["sel"], projection=style_v)),
+                "after a no-op chain": lambda: list(jsonpath.query(c["match"], doc).skip(0).limit(10 ** 6).select(*c["sel"], projection=style_v)),
+            }
+            if c["style"] == "RELATIVE":
+                forms["default projection"] = lambda: list(jsonpath.query(c["match"], doc).select(*c["sel"]))
+            for name, fn in forms.items():
+                r = core.outcome(fn)
+                rr = [core.canon(x) for x in r["ok"]] if "ok" in r else {"err": r["err"]}
+                if rr != got:
+                    ctx.violation("every way of asking for the same projection must give the same result", {**inp, "form": name}, rr, got)
         if not outside and got != model:
             ctx.mismatch("proj.select", inp, got, model)
         if not in_scope:
